@@ -25,8 +25,8 @@ class OutMixIn:
 
     @property
     def out(self) -> Optional["Device"]:
-        """The next hop of current device."""
-        return self._out
+        """The next hop of current device (None until one is assigned)."""
+        return getattr(self, "_out", None)
 
     @out.setter
     def out(self, val) -> None:
